@@ -25,6 +25,12 @@ def marked_component(rnd, marker, kind):
     pal = [("C", 4, False)] * 8 + [("N", 3, False), ("O", 2, False)]
     if kind == "small":
         return rnd.choice(["C", "CC", "CCO", "CCN", "CCCC", "C(C)C", "OCCO"]) + marker
+    if kind == "listclose":
+        # a transition list that may cap the chain DURING growth although a suffix is still to come: such a history has no complete
+        # molecule (the library raises); the marker sits in the SUFFIX, so a truncated molecule is recognisably not a member
+        w1, w2 = rnd.choice(["7", "3.0", "1"]), rnd.choice(["0.3", "1", ".5"])
+        unit = rnd.choice(["CC", "C(C)C", "CO", "CCN"])
+        return f"{rnd.choice(['N', 'CC', 'OC'])}{{[>] [<]{unit}[>|{w1} 0 {w2}|]; [<]O [<]}}|uniform({rnd.choice([30, 60])}, {rnd.choice([90, 150])})|C{marker}"
     if kind == "endinit":
         for _ in range(20):
             ast = gen.rand_molecule(rnd, rnd.choice(["homo", "random", "endinit2", "stepgrowth"]), palette=pal, units=(1, 4))
@@ -49,10 +55,17 @@ def build_system(rnd, ncomp, mass_scale):
     marks = MARKERS[:]
     rnd.shuffle(marks)
     for i in range(ncomp):
-        kind = rnd.choice(["small", "poly", "poly"])
+        kind = rnd.choice(["small", "poly", "poly", "listclose"])
         comps.append((marks[i], marked_component(rnd, marks[i], kind)))
-    cuts = sorted(rnd.sample(range(1, 100), ncomp - 1)) if ncomp > 1 else []
-    fr = [b - a for a, b in zip([0] + cuts, cuts + [100])]
+    # percentages: whole numbers, halves / quarters / eighths (exact in binary64), and now and then a component below 1 %
+    den = rnd.choice([1, 1, 2, 4, 8])
+    cuts = sorted(rnd.sample(range(1, 100 * den), ncomp - 1)) if ncomp > 1 else []
+    if ncomp > 1 and den > 1 and rnd.random() < 0.3:
+        cuts[0] = rnd.randint(1, den - 1)
+        cuts = sorted(set(cuts))
+        while len(cuts) < ncomp - 1:
+            cuts = sorted(set(cuts + [rnd.randint(1, 100 * den - 1)]))
+    fr = [(b - a) / den for a, b in zip([0] + cuts, cuts + [100 * den])]
     M = float(mass_scale)
     mode = rnd.choice(["pct+abs", "abs", "pct"])
     text = ""
